@@ -124,5 +124,35 @@ def oracle(ctx):
                 fail = f'a unit using only documented keys was rejected because of its keys: {r[2]!r}'
         if fail:
             res.oracle_failures.append(dict(op=op, input=text, impl_output=core.dec_line(a)[:600], oracle_expectation=fail))
+    # the report itself, as the user sees it: the real binary, the unit in a directory whose path is short, ~500, ~1000, ~2000 bytes
+    import e2e, os, shutil
+    deep = []
+    for depth in (0, 2, 4, 8):
+        for ty, nm in (('container', 'Imagee'), ('volume', 'Lable'), ('pod', 'podname'), ('kube', 'Yamll')):
+            deep.append((depth, ty, nm))
+    if not ctx.thorough:
+        deep = ctx.rnd.sample(deep, 8)
+
+    def run_deep(c):
+        depth, ty, nm = c
+        base = e2e.fresh_dir()
+        d = os.path.join(base, 'src', *['d' * 235 + str(i) for i in range(depth)])
+        os.makedirs(d)
+        with open(os.path.join(d, 'bad-unit.' + ty), 'w') as f:
+            f.write('[' + G.SEC[ty] + ']\n' + ''.join(b + '\n' for b in G.BASE[ty]) + nm + '=1\n')
+        out = []
+        for args in (['--dry-run', '--no-kmsg-log'], ['--no-kmsg-log'], ['--no-kmsg-log', '-v']):   # (without --no-kmsg-log the report goes to the kernel log)
+            rc, so, se = e2e.run_binary(args + [os.path.join(base, 'out')], os.path.join(base, 'src'))
+            out.append((args, rc, se))
+        shutil.rmtree(base, ignore_errors=True)
+        return out
+    for (depth, ty, nm), runs in zip(deep, e2e.pmap(run_deep, deep)):
+        for args, rc, se in runs:
+            res.oracle_evals += 1
+            errs = [l for l in se.split('\n') if 'ERROR' in l]
+            if rc != 1 or not any(f"'{nm}'" in l and 'bad-unit.' + ty in l for l in errs):
+                res.oracle_failures.append(dict(op='e2e ' + ' '.join(args), input=dict(unit_type=ty, key=nm, directory_depth=depth, path_bytes=depth * 240),
+                                                impl_output=dict(exit=rc, errors=[l[:200] + ' … ' + l[-200:] if len(l) > 420 else l for l in errs][:3]),
+                                                oracle_expectation=f'exit status 1 and an error line naming the key {nm!r} and the file bad-unit.{ty}'))
     res.samples.append(dict(kind='oracle-case', unit=cs[0][1], expected_unknown_key=cs[0][2]))
     ctx.log(f'oracle: {res.oracle_evals} evaluations, {len(res.oracle_failures)} failures')
